@@ -50,7 +50,8 @@ def cases(tier):
             args = [draw(vg.single(t)) for _, t in m["args"]]
         else:
             args = [draw(vg.value(t)) for _, t in m["args"]]
-        rets = [draw(vg.value(t)) for t in m["ret"]]
+        # the body element of a bare response cannot be absent or nil
+        rets = [draw(vg.single(t) if style != "wrapped" else vg.value(t)) for t in m["ret"]]
         return {"U": U, "m": m, "args": args, "rets": rets,
                 "prot": draw(st.sampled_from(["xml", "soap11", "soap12"])),
                 "validator": draw(st.sampled_from([None, "soft", "lxml"])),
